@@ -85,7 +85,7 @@ func (eth *Ethernet) SerializeTo(b gopacket.SerializeBuffer, opts gopacket.Seria
 		}
 		if eth.EthernetType != EthernetTypeLLC {
 			return fmt.Errorf("ethernet type %v not compatible with length value %v", eth.EthernetType, eth.Length)
-		} else if eth.Length > 0x0600 {
+		} else if eth.Length >= 0x0600 {
 			return fmt.Errorf("invalid ethernet length %v", eth.Length)
 		}
 		binary.BigEndian.PutUint16(bytes[12:], eth.Length)
